@@ -1006,6 +1006,112 @@ static void m6_case(Tape &t)
 	if (stats.want_sample()) stats.sample(desc + fmt(" => victim error %d", v->error()));
 }
 
+// ------------------------------------------------------------- M7: a server that has the certificate chain but not its key
+// Anyone can hold a server's chain.  This impersonator is a BearSSL server context with a policy handler of its
+// own: it presents the fixture chain, runs an honest ECDHE exchange with a point of its own and "signs" the
+// ServerKeyExchange without the private key: random bytes, zeros, or the pair (r, s) = (Qx, Qx) which verifies
+// for the hash VALUE ZERO under any EC public key Q (u1 = 0, u2 = 1, R = Q) - what a verifier computes when it
+// ends up with an empty hash, e.g. for a hash function it was configured without.  The client profile lacks one
+// hash function in half of the cases and the ServerKeyExchange names either that function or one the client has.
+// Control: the genuine server is accepted by the same reduced client.
+struct KeylessPolicy {
+	const br_ssl_server_policy_class *vt;
+	const br_x509_certificate *chain;
+	uint16_t suite;
+	unsigned hash_id;
+	Bytes sig;
+	int n_sign = 0;
+};
+static int kl_choose(const br_ssl_server_policy_class **pctx, const br_ssl_server_context *, br_ssl_server_choices *ch)
+{
+	KeylessPolicy *k = (KeylessPolicy *)pctx;
+	ch->cipher_suite = k->suite;
+	ch->algo_id = 0xFF00 + k->hash_id;
+	ch->chain = k->chain;
+	ch->chain_len = 2;
+	return 1;
+}
+static uint32_t kl_keyx(const br_ssl_server_policy_class **, unsigned char *, size_t *) { return 0; }
+static size_t kl_sign(const br_ssl_server_policy_class **pctx, unsigned, unsigned char *data, size_t, size_t len)
+{
+	KeylessPolicy *k = (KeylessPolicy *)pctx;
+	k->n_sign++;
+	if (k->sig.size() > len) return 0;
+	memcpy(data, k->sig.data(), k->sig.size());
+	return k->sig.size();
+}
+static const br_ssl_server_policy_class KL_VT = { sizeof(KeylessPolicy), kl_choose, kl_keyx, kl_sign };
+static Bytes der_int(Bytes v)
+{
+	while (v.size() > 1 && v[0] == 0) v.erase(v.begin());
+	if (v[0] & 0x80) v.insert(v.begin(), 0);
+	Bytes r = { 0x02, (uint8_t)v.size() };
+	r.insert(r.end(), v.begin(), v.end());
+	return r;
+}
+static void m7_case(Tape &t)
+{
+	bool ec = t.u8() % 4 != 0;
+	uint16_t suite = ec ? t.pick<uint16_t>({ 0xC02B, 0xC023, 0xCCA9, 0xC0AC }) : t.pick<uint16_t>({ 0xC02F, 0xC027, 0xCCA8 });   // TLS 1.2, SHA-256 PRF
+	const wt::SuiteInfo *si = wt::suite_by_id(suite);
+	Profile cp, sp;
+	cp.suites = { suite }; sp.suites = { suite };
+	cp.vmin = cp.vmax = sp.vmin = sp.vmax = 0x0303;
+	sp.key = ec ? K_EC : K_RSA;
+	for (int i = 0; i < 32; i++) { cp.entropy[i] = (uint8_t)(suite + i * 7 + 1); sp.entropy[i] = (uint8_t)(suite * 5 + i); }
+	static const int HID[] = { br_sha1_ID, br_sha224_ID, br_sha384_ID, br_sha512_ID };
+	static const char *HN[] = { "", "md5", "sha1", "sha224", "sha256", "sha384", "sha512" };
+	int removed = t.flag() ? HID[t.u8() % 4] : 0;
+	unsigned named = t.u8() % 3 == 0 ? (unsigned)t.pick<int>({ br_sha1_ID, br_sha224_ID, br_sha256_ID, br_sha384_ID, br_sha512_ID }) : removed ? (unsigned)removed : (unsigned)br_sha256_ID;
+	unsigned kind = t.u8() % 4;     // 0: (Qx, Qx), 1: random, 2: zeros, 3: genuine server (control)
+	const br_x509_certificate *chain = ec ? FX_EC_CHAIN : FX_RSA_CHAIN;
+	LeafKey lk = leaf_key(chain[0]);
+	KeylessPolicy pol;
+	pol.vt = &KL_VT; pol.chain = chain; pol.suite = suite; pol.hash_id = named;
+	if (ec) {
+		size_t cl = (lk.a.size() - 1) / 2;
+		Bytes qx(lk.a.begin() + 1, lk.a.begin() + 1 + cl), r = qx, sv = qx;
+		if (kind == 1) { r = t.filled(cl); sv = t.filled(cl); r[0] &= 0x7F; sv[0] &= 0x7F; r[cl - 1] |= 1; sv[cl - 1] |= 1; }
+		if (kind == 2) { r.assign(cl, 0); sv.assign(cl, 0); }
+		Bytes body = der_int(r), si2 = der_int(sv);
+		body.insert(body.end(), si2.begin(), si2.end());
+		pol.sig = { 0x30, (uint8_t)body.size() };
+		pol.sig.insert(pol.sig.end(), body.begin(), body.end());
+	} else {
+		// RSA: no value verifies without the key; the cleartext padded block of an empty DigestInfo, random bytes, zeros
+		size_t nl = lk.a.size();
+		pol.sig.assign(nl, 0);
+		if (kind == 1) { pol.sig = t.filled(nl); pol.sig[0] &= 0x3F; }
+		if (kind == 0) { pol.sig.assign(nl, 0xFF); pol.sig[0] = 0; pol.sig[1] = 1; pol.sig[nl - 1] = 0; }
+	}
+	BearClient c(cp);
+	if (removed) br_ssl_engine_set_hash(c.eng, removed, nullptr);
+	BearServer s(sp);
+	if (kind != 3) br_ssl_server_set_policy(s.ss.get(), &pol.vt);
+	VF_CHECK(c.reset() && s.reset(), "harness: reset");
+	Session S(&c, &s);
+	S.script[0].push_back(Item{ IT_WRITE, 20, true });
+	S.script[1].push_back(Item{ IT_WRITE, 20, true });
+	S.run(400000);
+	Bytes sink;
+	bool done = S.ever_ready[0] && S.ever_ready[1];
+	if (!done) { if (!c.closed()) bear_transport_eof(&c, &sink); if (!s.closed()) bear_transport_eof(&s, &sink); }
+	std::string what = fmt("%s TLS1.2, client %s%s, %s", si->name, removed ? "without " : "with all hash functions", removed ? HN[removed] : "",
+		kind == 3 ? "genuine server" : fmt("server without the private key: ServerKeyExchange names %s, signature is %s", HN[named], kind == 0 ? (ec ? "(r, s) = (Qx, Qx), valid for the hash value zero" : "a cleartext padded block") : kind == 1 ? "random" : "all zeros").c_str());
+	if (kind == 3) {
+		VF_CHECK(done && S.recvd[0] == 20 && S.recvd[1] == 20, "%s: handshake failed (errors client %d, server %d)", what.c_str(), c.error(), s.error());
+		stats.cls("M7/control-genuine-server");
+	} else {
+		VF_CHECK(pol.n_sign == 1, "harness: the impersonator's signing callback ran %d times", pol.n_sign);
+		VF_CHECK(!S.ever_ready[0], "%s: the client became ready for application data (nobody proved possession of the certified key)", what.c_str());
+		VF_CHECK(c.closed() && c.error() != 0, "%s: the client did not fail (error %d)", what.c_str(), c.error());
+		VF_CHECK(S.recvd[0] == 0 && S.recvd[1] == 0, "%s: application data was delivered (%zu / %zu bytes)", what.c_str(), S.recvd[0], S.recvd[1]);
+		stats.cls(fmt("M7/keyless-server/%s/%s", ec ? "ecdsa" : "rsa", removed && named == (unsigned)removed ? "names-a-hash-the-client-lacks" : "names-a-hash-the-client-has"));
+	}
+	stats.eval_h(fnv(what));
+	if (stats.want_sample()) stats.sample(what + fmt(" => client error %d", c.error()));
+}
+
 void target_run(Tape &t)
 {
 	static bool probed = false;
@@ -1013,6 +1119,7 @@ void target_run(Tape &t)
 	unsigned m = t.u8();
 	if (m == 0xF0) { unsigned k = t.u8() % NKINDS; int dir = t.u8() & 1; size_t rec = t.u8(); size_t off = t.u16(); uint8_t mask = t.u8(); unsigned cm = t.u8(); m0_case(k, dir, rec, off, mask, cm); return; }
 	if (m == 0xF1) { unsigned k = t.u8() % NKINDS; int dir = t.u8() & 1; unsigned edit = t.u8() % E_NEDITS; size_t mi = t.u8(); unsigned aux = t.u8(); unsigned cm = t.u8(); m1_case(k, dir, edit, mi, aux, cm); return; }
+	if (m >= 0xC8 && m < 0xF0 && m % 3 == 0) { m7_case(t); return; }
 	switch (m % 11) {
 	case 0: case 1: {
 		unsigned k = t.u8() % NKINDS;
